@@ -1,3 +1,5 @@
 import IclModel.Prim
 import IclModel.Layout
 import IclModel.Gen.Layouts
+import IclModel.Spec.Types
+import IclModel.Spec.Layouts
